@@ -459,6 +459,17 @@ def run(ck):
                 i = len(texts) // 2
                 samples.append({"single-fault": fmt, "text": texts[i][:160], "real": res[i][0][0], "model": model.get(i)})
         dist.setdefault(fmt, {})["single-fault"] = dict(hist, _descriptors=total, _run=nrun)
+    # 4b. record keywords of the parser under examination brought into valid documents (branches the seeds never enter)
+    for fmt in G.FORMATS:
+        if not good[fmt]:
+            continue
+        seeds = sorted(good[fmt], key=lambda nt: len(nt[1]))[:2]
+        texts = set()
+        for name, txt in seeds:
+            texts.update(G.keyword_documents(fmt, txt, ck.rng, 1200 if ck.tier == "quick" else 20000))
+        n, h1, res, model = run_stream(ck, tally, "keyword", fmt, sorted(texts))
+        nontrivial += sum(1 for r, a in res if r[0] != "ok")
+        dist.setdefault(fmt, {})["keyword"] = dict(h1, _keywords=len(G.source_keywords(fmt)), _run=n)
     # 5. (b) random abstract documents rendered to text, and multi-fault corruptions
     nrand = QUICK_RANDOM if ck.tier == "quick" else 20000 // 6
     for fmt in G.FORMATS:
